@@ -1,9 +1,67 @@
 import Driver.Util
-open Lean
+import Driver.PyJson
+import Driver.C07
+import Torf.Model.Write
+open Lean Torf Torf.Export Torf.Validate Torf.Write
 namespace Driver.C17
 
-/-- ops of property C17: `c17.<name>` -/
-def handle (op : String) (_j : Json) : Except String Json :=
-  throw s!"unknown op {op}"
+def nodeJson : Node → Json
+  | .absent => jobj [("k", "absent")]
+  | .file c => jobj [("k", "file"), ("content", jstr (hexOf c))]
+  | .dir => jobj [("k", "dir")]
+
+def getNode (j : Json) : Except String Node := do
+  match (← getStr j "k") with
+  | "absent" => pure .absent
+  | "dir" => pure .dir
+  | "file" => return .file (← getHex j "content")
+  | k => throw s!"unknown node kind {k}"
+
+/-- the content producer: `dump(validate=…)` of the C07 model on the given metainfo -/
+def producer (j : Json) : Except String (Except ErrKind Bytes) := do
+  let md ← C07.getItems j
+  let urlOk ← C07.getUrlOk j
+  let validate := (j.getObjValAs? Bool "validate").toOption.getD true
+  pure (if validate then dump urlOk noPath md else dumpNoValidate md)
+
+/-- op `c17.write`: {md, urls, validate?, overwrite, node, parentOk} -/
+def write (j : Json) : Except String Json := do
+  let d ← producer j
+  let ov ← getBool j "overwrite"
+  let node ← getNode (← j.getObjVal? "node")
+  let parentOk ← getBool j "parentOk"
+  let t : Target := { node := node, parentOk := parentOk }
+  let (r, t', log) := Write.write d ov none t
+  -- executable specification (what C17 demands), independent of the model's control flow
+  let refused := !ov && t.exists_
+  let specOk : Bool :=
+    match r with
+    | .error _ => t' == t
+    | .ok _ => (match d with | .ok c => t'.node == .file c | .error _ => false) && !refused
+  return jobj [("result", C07.resUnit r), ("node", nodeJson t'.node), ("specOk", jbool specOk),
+               ("dump", C07.resBytes d), ("log", jarr (log.map fun e => jstr (reprStr e))),
+               ("hyp", jbool (C07.sumAbs (.dict (← C07.getItems j)) < 2 ^ 53 && C07.depth (.dict (← C07.getItems j)) ≤ 100))]
+
+/-- op `c17.stream`: {md, urls, validate?, seekable, content, pos, writeFails} -/
+def stream (j : Json) : Except String Json := do
+  let d ← producer j
+  let s : Stream := { seekable := (← getBool j "seekable"), content := (← getHex j "content"),
+                      pos := (← getNat j "pos"), writeFails := (← getBool j "writeFails") }
+  let (r, s') := Write.writeStream d s
+  let specOk : Bool :=
+    match d, r with
+    | .error e, .error e' => e == e' && s' == s
+    | .ok c, .ok _ => if s.seekable then s'.content == c else s'.content == s.content ++ c
+    | .ok _, .error e => e == .write && s.writeFails
+    | _, _ => false
+  return jobj [("result", C07.resUnit r), ("content", jstr (hexOf s'.content)), ("pos", jnat s'.pos),
+               ("specOk", jbool specOk), ("dump", C07.resBytes d),
+               ("hyp", jbool (C07.sumAbs (.dict (← C07.getItems j)) < 2 ^ 53 && C07.depth (.dict (← C07.getItems j)) ≤ 100))]
+
+def handle (op : String) (j : Json) : Except String Json :=
+  match op with
+  | "c17.write" => write j
+  | "c17.stream" => stream j
+  | _ => throw s!"unknown op {op}"
 
 end Driver.C17
